@@ -145,4 +145,13 @@ MUTANTS = [
  {"id": "split-lines-also-at-cr", "kind": "break", "edits": [{"patch": "/verif/benign/h7-plist-2/patch.diff"}, ("src/plist.rs", "        for line in bytes.split(|&ch| ch == b'\\n') {", "        for line in bytes.split(|&ch| ch == b'\\n' || ch == b'\\r') {")], "expect": ["D3-TRANSFER"]},
  {"id": "split-lines-bad-line-skipped", "kind": "break", "edits": [{"patch": "/verif/benign/h7-plist-2/patch.diff"}, ("src/plist.rs", "            plist.entries.push(PlistEntry::from_bytes(line)?);", "            if let Ok(e) = PlistEntry::from_bytes(line) {\n                plist.entries.push(e);\n            }")], "expect": ["D"]},
  {"id": "split-lines-reversed", "kind": "break", "edits": [{"patch": "/verif/benign/h7-plist-2/patch.diff"}, ("src/plist.rs", "        for line in bytes.split(|&ch| ch == b'\\n') {", "        for line in bytes.rsplit(|&ch| ch == b'\\n') {")], "expect": ["D"]},
+
+ # the line cut with split_at(first space); the argument as rest[first non-blank of rest ..]
+ {"id": "split-at-first-space-benign", "kind": "benign", "edits": [{"patch": "/verif/benign/h8-plist-2/patch.diff"}]},
+ {"id": "split-at-after-the-space", "kind": "break", "edits": [{"patch": "/verif/benign/h8-plist-2/patch.diff"}, ("src/plist.rs", "            Some(i) => bytes.split_at(i),", "            Some(i) => bytes.split_at(i + 1),")], "expect": ["D1-SPLIT"]},
+ {"id": "split-at-no-space-word-empty", "kind": "break", "edits": [{"patch": "/verif/benign/h8-plist-2/patch.diff"}, ("src/plist.rs", "            None => (bytes, &bytes[bytes.len()..]),", "            None => (&bytes[bytes.len()..], bytes),")], "expect": ["D1-SPLIT"]},
+ {"id": "split-at-argument-at-first-blank", "kind": "break", "edits": [{"patch": "/verif/benign/h8-plist-2/patch.diff"}, ("src/plist.rs", "            .position(|c| !c.is_ascii_whitespace())", "            .position(|c| c.is_ascii_whitespace())")], "expect": ["D1-SPLIT"]},
+ {"id": "split-at-argument-loses-first-byte", "kind": "break", "edits": [{"patch": "/verif/benign/h8-plist-2/patch.diff"}, ("src/plist.rs", "            .map(|i| OsStr::from_bytes(&rest[i..]));", "            .map(|i| OsStr::from_bytes(&rest[i + 1..]));")], "expect": ["D1-"]},
+ {"id": "split-at-argument-from-last-non-blank", "kind": "break", "edits": [{"patch": "/verif/benign/h8-plist-2/patch.diff"}, ("src/plist.rs", "            .position(|c| !c.is_ascii_whitespace())", "            .rposition(|c| !c.is_ascii_whitespace())")], "expect": ["D1-SPLIT"]},
+ {"id": "split-at-argument-cut-from-whole-line", "kind": "break", "edits": [{"patch": "/verif/benign/h8-plist-2/patch.diff"}, ("src/plist.rs", "            .map(|i| OsStr::from_bytes(&rest[i..]));", "            .map(|i| OsStr::from_bytes(&bytes[i..]));")], "expect": ["D1-"]},
 ]
